@@ -48,6 +48,12 @@ def table_cases(rng, tier):
         c = rvgen.sim_case(rng, "five" if i % 2 else "single", trace=0, run=rng.choice([0, 3, 40]), dprob=0.4, iprob=0.0, suite="rv-tables")
         c.lines += ["sim.arch", "sim.regtable", "sim.memtable"]
         yield c
+    # the instruction listing with its stage column (the RISC-V counterpart of the TOY table's cycle mark): after every step of
+    # hazard-rich programs (stalls, flushes, ecall drains), both modes, with and without hazard detection
+    for i in range(n):
+        c = rvgen.sim_case(rng, "five" if i % 3 else "single", hazard=(i % 5 != 0), trace=rng.choice([8, 14, 25]), run=200, dprob=0.2, iprob=0.2, suite="rv-listing")
+        c.lines = [x for l in c.lines for x in ((l, "sim.listing") if l == "sim.snap" else (l,))]
+        yield c
     for i in range(n):
         c = toygen.image_case(rng, toygen.mixed_calls, max_steps=rng.choice([0, 1, 2, 7, 30]), suite="toy-tables")
         c.lines += ["toy.snap", "toy.regtable", "toy.memtable"]
@@ -165,8 +171,42 @@ def unhx(h):
     return "" if h == "." else bytes.fromhex(h).decode()
 
 
+def listing_oracle(c):
+    """Every row of the instruction listing sits at the address of its instruction (4k, shown as 0x%08X, ascending from 0) and its
+    stage column names the pipeline register that currently holds that address — the LAST one in pipeline order when the
+    instruction is held twice (a stalled decode) — and is empty for an instruction that is in no register."""
+    import rvgen
+    names = ["IF", "ID", "EX", "MEM", "WB"]
+    snap = None
+    for l, o in zip(c.lines, c.impl_out):
+        if l == "sim.snap":
+            snap = o
+        elif l == "sim.listing" and snap is not None and o != "." and not o.startswith(("X", "F", "bad")):
+            rows = [r.split(",") for r in o.split(";")]
+            addrs = [int(r[0]) for r in rows]
+            if addrs != [4 * k for k in range(len(rows))]:
+                return [Failure("oracle", PROP, f"instruction listing addresses {addrs[:8]} are not 0, 4, 8, ...", "tables:listing-addresses")]
+            for r in rows:
+                if unhx(r[1]) != "0x%08X" % int(r[0]):
+                    return [Failure("oracle", PROP, f"instruction listing shows {unhx(r[1])!r} for address {r[0]}", "tables:listing-addresses")]
+            if c.meta.get("mode") != "five":
+                continue
+            d = rvgen.parse_snap(snap)
+            want = {}
+            for k in range(5):
+                v = d.get(f"L{k}", "-")
+                if v != "-" and "@" in v:
+                    want[int(v.split(";")[0].split("@")[1])] = names[k]
+            for r in rows:
+                if unhx(r[3]) != want.get(int(r[0]), ""):
+                    return [Failure("oracle", PROP, f"instruction listing marks address {r[0]} with stage {unhx(r[3])!r}, the pipeline registers hold it in {want.get(int(r[0]), '') !r}", "tables:listing-stage")]
+    return []
+
+
 def oracle(c):
     fails = []
+    if c.suite == "rv-listing" or any(l == "sim.listing" for l in c.lines):
+        return listing_oracle(c)
     if any(l in ("sim.regtable", "toy.regtable") for l in c.lines):
         return tables_oracle(c)
     if c.suite in ("fmt", "corpus", "replay") and c.lines and c.lines[0].startswith("fmt"):
